@@ -21,7 +21,9 @@ Record lreq := { q_method : bytes;
                  q_path : bytes;
                  q_lookup : obs;                     (* Router.Lookup: route, tsr, Params() *)
                  q_reverse : option (bytes * bool);  (* Router.Reverse: route, tsr (lazy) *)
-                 q_spec : bool }.                    (* request inside the domain of the specification *)
+                 q_spec : bool;                      (* request inside the domain of the specification *)
+                 q_others : bool }.                  (* Txn.Lookup / Txn.Reverse / Iter.Reverse (router and txn) /
+                                                        ServeHTTP select the same route, tsr and params *)
 
 Definition lcase := (roots * lreq)%type.
 
@@ -87,6 +89,7 @@ Definition lspec_full_ok (c : lcase) : bool :=
 (* Lookup and Reverse agree on (route, tsr) *)
 Definition entrypoints_agree (c : lcase) : bool :=
   let q := snd c in
+  q_others q &&
   match q_lookup q, q_reverse q with
   | ONone, None => true
   | OFound p t _, Some (p', t') => bytes_eqb p p' && Bool.eqb t t'
@@ -99,3 +102,16 @@ Definition l_direct_violations (cs : list lcase) : list nat :=
 Definition l_full_violations (cs : list lcase) : list nat :=
   true_idx (map (fun c => negb (lspec_full_ok c && entrypoints_agree c)) cs).
 Definition l_fuel_outs (cs : list lcase) : list nat := true_idx (map l_oof cs).
+
+(* ---- listed finding c01_star_byte_prefers_catchall: the pinned behaviour (implementation =
+   model) selects a catch-all whose captured value starts with a literal '*' although
+   the specification prefers another route; call site: static child search in
+   lookupByPath finding the '*' child through childKeys ---- *)
+Definition value_starts_star (ps : list kv) : bool :=
+  existsb (fun e => match snd e with c :: _ => Ascii.eqb c "*" | [] => false end) ps.
+Definition l_known_star (full : bool) (c : lcase) : bool :=
+  let q := snd c in
+  negb (if full then lspec_full_ok c else lspec_direct_ok c) && entrypoints_agree c && lmodel_agrees c &&
+  match q_lookup q with OFound _ _ ps => value_starts_star ps | ONone => false end.
+Definition l_known_star_direct (cs : list lcase) : list nat := true_idx (map (l_known_star false) cs).
+Definition l_known_star_full (cs : list lcase) : list nat := true_idx (map (l_known_star true) cs).
